@@ -64,3 +64,24 @@ contract("C13.schema_find_tag_entry", file="hed/schema/hed_schema.py", func="Hed
                  " and unmatched_reported)",
              "C13.single.own_prefix_resolves": "implies(schema_namespace == self._namespace and tag_view(self, w) is not None, result[0] == tag_view(self, w))",
          })
+
+# C13/C03 "a prefixed annotation is judged ... exactly as" by the schema it is validated WITH: identifying a tag always asks the schema
+# handed in (also for a tag that an earlier parse identified with another schema) and stores exactly what that schema answers
+class_model("SchemaAny", {})
+class_model("HedTagIdent", {"schema_namespace": "Str", "_schema_entry": "Opt[TagEntry]", "_schema": "Opt[SchemaAny]", "tag_terms": "Opaque",
+                            "_extension_value": "Opt[Str]"})
+contract("C13.any_schema_find_tag_entry", file="hed/schema/hed_schema.py", func="HedSchema.find_tag_entry",
+         params={"self": "SchemaAny", "tag": "HedTagIdent", "schema_namespace": "Str"},
+         returns="Tuple[Opt[TagEntry],Opt[Str],Opaque]", enc="native", trusted=True, self_class="SchemaAny",
+         ensures={"named": "result[0] == answered_entry(self, tag, schema_namespace) and result[1] == answered_remainder(self, tag, schema_namespace)"},
+         assume=["find_tag_entry of a schema or schema group is a deterministic function of (schema, tag text, prefix) - its rule is C03/C13.*find_tag_entry"])
+contract("C13.identify_with_the_given_schema", file="hed/models/hed_tag.py", func="HedTag._calculate_to_canonical_forms",
+         params={"self": "HedTagIdent", "hed_schema": "SchemaAny"}, returns="Opaque", enc="native", self_class="HedTagIdent", also=["C03"],
+         modifies=["self._schema_entry", "self._schema", "self.tag_terms", "self._extension_value"],
+         ensures={
+             "C13.identify.entry_is_what_the_given_schema_answers": "self._schema_entry == answered_entry(hed_schema, self, self.schema_namespace)",
+             "C13.identify.schema_recorded": "self._schema is hed_schema",
+             "C13.identify.remainder_taken_from_the_given_schema": "implies(self._schema_entry is not None and answered_remainder(hed_schema, self, self.schema_namespace) is not None"
+                 " and len(answered_remainder(hed_schema, self, self.schema_namespace)) > 0,"
+                 " self._extension_value == answered_remainder(hed_schema, self, self.schema_namespace))",
+         })
